@@ -642,6 +642,15 @@ class CStateMachineGenerator(CGenerator):
                 tt_out += '\n'
                 output.append(tt_out)
                 tt_out = ""
+        # States that are only ever a target : their entry/exit hooks, once only
+        if sml_entry_exit:
+            for state in smmodel.states:
+                if not (state in startStateHasEntryExit):
+                    startStateHasEntryExit[state] = True
+                    tt_out += whitespace + ", state<" + state + "> + boost::sml::on_entry<_> / " + camel_case_small(state) + 'OnEntry\n'
+                    tt_out += whitespace + ", state<" + state + "> + boost::sml::on_exit<_> / " + camel_case_small(state) + 'OnExit\n'
+                    output.append(tt_out)
+                    tt_out = ""
 
     def filterInitialState(self, all_lines, smmodel):
         output = []
